@@ -7,6 +7,7 @@ import GeonumModel.Lemmas.Exact
 import GeonumModel.Lemmas.ExactAdd
 import GeonumModel.Lemmas.SumMagFloat
 import GeonumModel.Lemmas.FloatMetric
+import GeonumModel.Spec.RoundWitness
 
 set_option linter.unusedSectionVars false
 set_option linter.unusedVariables false
@@ -338,5 +339,17 @@ example {F : Type} [FloatSpec F] {a b : Geonum F} (ha : a.MagDom) (hb : b.MagDom
   distance_float ha hb (gradeAngle_fin (geometricSub_spec hbi hai).1)
 
 example {F : Type} [FloatSpec F] : (⟨zero, 0⟩ : Angle F).Inv := inv_zero 0
+
+
+/-! ### R — on the arithmetic that really rounds (`R64`) -/
+section R
+
+/-- (R) `distance_to` against the true Euclidean distance for all pairs of binary64 numbers in the domain -/
+theorem distance_true_rounded {a b : Geonum R64} (ha : a.angle.Inv) (hb : b.angle.Inv) (hma : a.MagDom) (hmb : b.MagDom) :
+    |(a.distanceTo b).mag.v - Geonum.euclid a.mag.v b.mag.v (Angle.Tpi a.angle) (Angle.Tpi b.angle)|
+      ≤ (a.mag.v + b.mag.v) * (11 / 10 ^ 6) + 1 / 10 ^ 90 :=
+  distance_true (F := R64) ha hb hma hmb
+
+end R
 
 end GeonumModel.C13
